@@ -46,10 +46,49 @@ def _cone(pc, goal):
     return chosen
 
 
+_DECL_CACHE = {}
+
+
+def _uf_names(e):
+    k = e.get_id()
+    if k in _DECL_CACHE:
+        return _DECL_CACHE[k]
+    out = set()
+    seen = set()
+    stack = [e]
+    while stack:
+        x = stack.pop()
+        if x.get_id() in seen:
+            continue
+        seen.add(x.get_id())
+        if z3.is_app(x):
+            if x.decl().kind() == z3.Z3_OP_UNINTERPRETED and x.num_args() > 0:
+                out.add(x.decl().name())
+            stack.extend(x.children())
+        elif z3.is_quantifier(x):
+            stack.append(x.body())
+    if len(_DECL_CACHE) > 100000:
+        _DECL_CACHE.clear()
+    _DECL_CACHE[k] = out
+    return out
+
+
+def relevant_axioms(axioms, formulas):
+    """ground axioms always; a quantified axiom only if it shares a function symbol with the query"""
+    names = set()
+    for f in formulas:
+        names |= _uf_names(f)
+    out = []
+    for a in axioms:
+        if not _has_quant(a) or (_uf_names(a) & names):
+            out.append(a)
+    return out
+
+
 def _check(axioms, hyps, goal, timeout_ms):
     s = z3.Solver()
     s.set('timeout', timeout_ms)
-    for a in axioms:
+    for a in relevant_axioms(axioms, list(hyps) + [goal]):
         s.add(a)
     for c in hyps:
         s.add(c)
@@ -67,7 +106,7 @@ def discharge(axioms, pc, goal, timeout_ms=10000, want_model=True, st=None, use_
     chosen = set(c.get_id() for c in cone)
     hyps = [c for c in pc if not _has_quant(c) and (c.get_id() in chosen or not _term_ids(c))]
     if len(hyps) < len(pc):
-        s, r = _check(axioms, hyps, goal, min(2000, timeout_ms))
+        s, r = _check(axioms, hyps, goal, min(800, timeout_ms))
         if r == z3.unsat:
             return Result('discharged', 'z3', time.time() - t0)
     # 2. all hypotheses
